@@ -222,17 +222,166 @@ func findFunc(p *pkg, name string) *ast.FuncDecl {
 	return nil
 }
 
-// normalised source of a function: printed from the AST without comments (so formatting and
-// comments do not matter), then hashed.
+// normalised source of a function, then hashed. The normal form is meant to be stable under rewrites that cannot
+// change behaviour: the function is printed from the AST without comments (formatting and comments do not matter),
+// statements that are only a call on a logger (x.logger.Debug(…), logger.Info(…), …) are dropped, and the names the
+// function binds itself (receiver, parameters, results, :=, var, range and type-switch bindings, labels) are replaced by
+// v0, v1, … in order of first binding, so that renaming a local variable leaves the fingerprint unchanged.
 func funcFingerprint(p *pkg, fd *ast.FuncDecl) (string, string) {
 	var buf bytes.Buffer
 	cfg := printer.Config{Mode: printer.RawFormat}
-	c := *fd
-	c.Doc = nil
-	cfg.Fprint(&buf, token.NewFileSet(), &c) // fresh fileset: no comments, no positions
+	c := normaliseFunc(fd)
+	cfg.Fprint(&buf, token.NewFileSet(), c) // fresh fileset: no comments, no positions
 	src := strings.Join(strings.Fields(buf.String()), " ")
 	h := sha256.Sum256([]byte(src))
 	return hex.EncodeToString(h[:8]), src
+}
+
+func isLogCall(e ast.Expr) bool {
+	call, ok := e.(*ast.CallExpr)
+	if !ok {
+		return false
+	}
+	sel, ok := call.Fun.(*ast.SelectorExpr)
+	if !ok {
+		return false
+	}
+	switch sel.Sel.Name {
+	case "Debug", "Info", "Warn", "Error", "Debugf", "Infof", "Warnf", "Errorf", "Debugw", "Infow", "Warnw", "Errorw":
+	default:
+		return false
+	}
+	// the receiver chain must name a logger: logger, h.logger, c.logger.With(…), log, …
+	var names func(x ast.Expr) bool
+	names = func(x ast.Expr) bool {
+		switch y := x.(type) {
+		case *ast.Ident:
+			l := strings.ToLower(y.Name)
+			return strings.Contains(l, "logger") || l == "log"
+		case *ast.SelectorExpr:
+			l := strings.ToLower(y.Sel.Name)
+			return strings.Contains(l, "logger") || names(y.X)
+		case *ast.CallExpr:
+			return names(y.Fun)
+		}
+		return false
+	}
+	return names(sel.X)
+}
+
+// normaliseFunc returns a deep copy of fd (via print+parse would lose nothing we need; we copy by re-parsing the
+// printed source) with log statements removed and bound names alpha-renamed.
+func normaliseFunc(fd *ast.FuncDecl) *ast.FuncDecl {
+	// deep copy: print and re-parse, so the caller's AST is never mutated
+	var buf bytes.Buffer
+	c0 := *fd
+	c0.Doc = nil
+	(&printer.Config{Mode: printer.RawFormat}).Fprint(&buf, token.NewFileSet(), &c0)
+	f, err := parser.ParseFile(token.NewFileSet(), "x.go", "package x\n"+buf.String(), 0)
+	if err != nil || len(f.Decls) != 1 {
+		return &c0
+	}
+	c := f.Decls[0].(*ast.FuncDecl)
+	// 1. drop log-only statements
+	var strip func(list []ast.Stmt) []ast.Stmt
+	strip = func(list []ast.Stmt) []ast.Stmt {
+		out := list[:0:0]
+		for _, st := range list {
+			if es, ok := st.(*ast.ExprStmt); ok && isLogCall(es.X) {
+				continue
+			}
+			out = append(out, st)
+		}
+		return out
+	}
+	ast.Inspect(c, func(n ast.Node) bool {
+		switch x := n.(type) {
+		case *ast.BlockStmt:
+			x.List = strip(x.List)
+		case *ast.CaseClause:
+			x.Body = strip(x.Body)
+		case *ast.CommClause:
+			x.Body = strip(x.Body)
+		}
+		return true
+	})
+	// 2. collect bound names in order of first binding
+	ren := map[string]string{}
+	bind := func(id *ast.Ident) {
+		if id == nil || id.Name == "_" {
+			return
+		}
+		if _, ok := ren[id.Name]; !ok {
+			ren[id.Name] = fmt.Sprintf("v%d", len(ren))
+		}
+	}
+	fields := func(fl *ast.FieldList) {
+		if fl == nil {
+			return
+		}
+		for _, f := range fl.List {
+			for _, n := range f.Names {
+				bind(n)
+			}
+		}
+	}
+	fields(c.Recv)
+	fields(c.Type.Params)
+	fields(c.Type.Results)
+	ast.Inspect(c.Body, func(n ast.Node) bool {
+		switch x := n.(type) {
+		case *ast.AssignStmt:
+			if x.Tok == token.DEFINE {
+				for _, l := range x.Lhs {
+					if id, ok := l.(*ast.Ident); ok {
+						bind(id)
+					}
+				}
+			}
+		case *ast.ValueSpec:
+			for _, id := range x.Names {
+				bind(id)
+			}
+		case *ast.RangeStmt:
+			if x.Tok == token.DEFINE {
+				if id, ok := x.Key.(*ast.Ident); ok {
+					bind(id)
+				}
+				if id, ok := x.Value.(*ast.Ident); ok {
+					bind(id)
+				}
+			}
+		case *ast.FuncLit:
+			fields(x.Type.Params)
+			fields(x.Type.Results)
+		case *ast.LabeledStmt:
+			bind(x.Label)
+		}
+		return true
+	})
+	// 3. rename every use, except field/method selectors and struct-literal keys
+	skip := map[*ast.Ident]bool{}
+	ast.Inspect(c, func(n ast.Node) bool {
+		switch x := n.(type) {
+		case *ast.SelectorExpr:
+			skip[x.Sel] = true
+		case *ast.KeyValueExpr:
+			if id, ok := x.Key.(*ast.Ident); ok {
+				skip[id] = true
+			}
+		}
+		return true
+	})
+	skip[c.Name] = true
+	ast.Inspect(c, func(n ast.Node) bool {
+		if id, ok := n.(*ast.Ident); ok && !skip[id] {
+			if r, ok := ren[id.Name]; ok {
+				id.Name = r
+			}
+		}
+		return true
+	})
+	return c
 }
 
 func calleeName(e ast.Expr) string {
@@ -329,7 +478,7 @@ func genSection(section string, spec Spec, out string, d *strings.Builder) {
 	var c strings.Builder
 	c.WriteString("/- GENERATED by /verif/extract from the current source tree (spec: extract/spec/" + section + ".json). Do not edit.\n" +
 		"   Constants are evaluated from the AST; `src_*` are fingerprints (first 8 bytes of sha256, hex) of the comment-free,\n" +
-		"   whitespace-normalised source of functions the models were written against; `calls_*` are ordered call-site facts. -/\nnamespace Ssv.Gen\n\n")
+		"   whitespace-normalised, log-statement-free, alpha-renamed (bound names → v0,v1,…) source of functions the models were written against; `calls_*` are ordered call-site facts. -/\nnamespace Ssv.Gen\n\n")
 	for _, cs := range spec.Consts {
 		p := loadPkg(cs.Root, cs.Dir)
 		e, ok := p.consts[cs.Name]
